@@ -286,6 +286,18 @@ class C16(Spec):
                 if a == b and a[0] != -1:
                     continue
                 variants([with_opt(a), with_opt(b)])
+        # ties and near-ties of the universal tags of the constructed types (SEQUENCE / SEQUENCE OF = 16, SET / SET OF = 17):
+        # every ordered pair of them next to one explicitly tagged component, in every position
+        import itertools
+        cons = [10, 11, 21, 22]
+        for a in cons:
+            for b in cons:
+                if a == b:
+                    continue
+                for tagged in [(PRIVATE, 1, 0), (CONTEXT, 0, 1), (APPLICATION, 5, 0)]:
+                    for perm in itertools.permutations([tagged + (0,), (-1, 0, a, 0), (-1, 0, b, 0)]):
+                        variants(list(perm), markers=[-1, 3], autos=(1, 0), kinds=(1,))
+                variants([(-1, 0, a, 1), (-1, 0, b, 1)], markers=[-1], autos=(0,), kinds=(1,))
         # n >= 3: sampled selections, all permutations of each
         plan = {3: 200, 4: 80} if tier == "quick" else {3: 1500, 4: 500, 5: 60}
         for n, count in plan.items():
